@@ -80,6 +80,11 @@ var failClasses = []failClass{
 	{"unknown-block:yield-with-content", "{{ yield zzNope() content }}\nyc\n{{ end }}", true, true},
 	{"yield-argument-without-value:with-content", "{{ yield zb(q) content }}\nyc\n{{ end }}", true, true},
 	{"index-map-key-nil", `{{ root.One[nil] }}`, true, true},
+	// a call of a missing map entry inside a larger expression; operands and arguments that reflection rejects
+	{"call-target-kind:missing-map-entry-in-expression", `{{ 1 + item.M.zz() }}`, true, true},
+	{"operand-kind:equal:bytes-and-string", `{{ bytesv == "ab" }}`, true, true},
+	{"builtin-arg-kind:slice-of-nil", `{{ slice(nil) }}`, true, true},
+	{"arg-count:slice-shorter-than-array-parameter", `{{ arrfn(none) }}`, true, true},
 	{"command-args-on-non-function", `{{ s: 1 }}`, true, true},
 	{"arg-count:few", `{{ upper() }}`, true, true},
 	{"arg-count:many", `{{ upper(s, s) }}`, true, true},
